@@ -25,6 +25,17 @@ package corr
 // number) is such a packet.
 //
 // `twin <op>`: a second cc interceptor built from the same factory (its own estimator, pacer and adapter).
+//
+// Feedback through the RTCP reader chain (round 6).  Most `twcc` / `ccfb` ops whose feedback survives Marshal/Unmarshal
+// unchanged are not handed to the adapter by the harness but READ: the bytes come up the chain's RTCP reader, pkg/cc
+// parses them (Attributes.GetRTCPPackets: parsed ONCE per read, the parsed packets shared by every reader of the chain)
+// and hands them to its estimator's WriteRTCP — the estimator the application supplied through the public
+// BandwidthEstimatorFactory: gcc.SendSideBWE with WriteRTCP overridden to feed the very objects it was handed to the
+// estimator's adapter and print the acknowledgements (the rate controller is left alone, so release instants stay
+// what the pacer classes expect).  The ambient puts rtpfb interceptors — the library's other feedback consumer —
+// BEFORE and/or AFTER pkg/cc: the acknowledgements of the adapter must be the model's wherever it sits, every rtpfb of
+// the chain must report the same arrivals (`CONSUMER-DIFF`), each of them what the bytes encode, and the parsed
+// packets in the attributes must still say what the bytes said after the Read (`INPUT-REWRITTEN`, ambient_rtcp_test.go).
 
 import (
 	"bytes"
@@ -38,6 +49,7 @@ import (
 	"github.com/pion/interceptor"
 	"github.com/pion/interceptor/pkg/cc"
 	"github.com/pion/interceptor/pkg/gcc"
+	"github.com/pion/interceptor/pkg/rtpfb"
 	"github.com/pion/interceptor/pkg/verifhooks"
 	"github.com/pion/logging"
 	"github.com/pion/rtcp"
@@ -66,6 +78,129 @@ type ccpPeer struct {
 	bwe     *gcc.SendSideBWE
 	streams map[uint32]*ccpStream
 	got     []ccpDelivery
+	est     *ccpEstimator
+	reader  interceptor.RTCPReader // the chain's RTCP reader over a transport that returns rtcpIn
+	rtcpIn  []byte
+	taps    []*ccpTap // one directly above every rtpfb interceptor of the chain, innermost first
+}
+
+// ccpEstimator is the estimator pkg/cc is given: gcc.SendSideBWE, except that RTCP handed to it goes to onRTCP.
+type ccpEstimator struct {
+	*gcc.SendSideBWE
+	onRTCP func([]rtcp.Packet)
+	calls  int
+}
+
+func (e *ccpEstimator) WriteRTCP(pkts []rtcp.Packet, _ interceptor.Attributes) error {
+	e.calls++
+	if e.onRTCP != nil {
+		e.onRTCP(pkts)
+	}
+	return nil
+}
+
+// ccpTap sits directly above an rtpfb interceptor: it takes the report that interceptor attached to the attributes of
+// a Read (and removes it, so that the next tap sees the next rtpfb's report or none).
+type ccpTap struct {
+	interceptor.NoOp
+	has    bool
+	report rtpfb.Report
+}
+
+func (t *ccpTap) BindRTCPReader(reader interceptor.RTCPReader) interceptor.RTCPReader {
+	return interceptor.RTCPReaderFunc(func(b []byte, a interceptor.Attributes) (int, interceptor.Attributes, error) {
+		n, attr, err := reader.Read(b, a)
+		if rep, ok := attr.Get(rtpfb.CCFBAttributesKey).(rtpfb.Report); ok && err == nil {
+			t.has, t.report = true, rep
+			delete(attr, rtpfb.CCFBAttributesKey)
+		}
+		return n, attr, err
+	})
+}
+
+// ccpWrap is o.Wrap with a tap above every `rtpfb` neighbour.
+func ccpWrap(o *Out, ic interceptor.Interceptor, pe *ccpPeer) interceptor.Interceptor {
+	if o == nil || o.Amb == nil || (!o.Has("rtpfb", true) && !o.Has("rtpfb", false)) {
+		return o.Wrap(ic)
+	}
+	var all []interceptor.Interceptor
+	add := func(kinds []string) {
+		for _, k := range kinds {
+			all = append(all, ambNeighbour(k))
+			if k == "rtpfb" {
+				tap := &ccpTap{}
+				pe.taps = append(pe.taps, tap)
+				all = append(all, tap)
+			}
+		}
+	}
+	add(o.Amb.Before)
+	all = append(all, ic)
+	add(o.Amb.After)
+	return interceptor.NewChain(all)
+}
+
+// ccpFeedbackPacket: the RTCP packet of a `twcc` / `ccfb` op and its wire form, when the wire form carries exactly
+// what the op says (hand-made feedback with inconsistent counts, unknown chunks, … does not survive Marshal/Unmarshal
+// and goes to the adapter directly).
+func ccpFeedbackPacket(name string, m map[string]string) ([]byte, bool) {
+	switch name {
+	case "twcc":
+		fb, ok := c09ParseTWCC(m)
+		if !ok {
+			return nil, false
+		}
+		// TransportLayerCC.Marshal writes the header it finds in the struct: fill it in as the library's recorder does
+		n := 20 + 2*len(fb.PacketChunks)
+		for _, d := range fb.RecvDeltas {
+			n++
+			if d.Type != rtcp.TypeTCCPacketReceivedSmallDelta {
+				n++
+			}
+		}
+		fb.Header = rtcp.Header{Padding: n%4 != 0, Count: rtcp.FormatTCC, Type: rtcp.TypeTransportSpecificFeedback, Length: uint16(fb.MarshalSize()/4 - 1)}
+		raw, err := fb.Marshal()
+		if err != nil || len(raw) != fb.MarshalSize() || len(raw) > 1400 {
+			return nil, false
+		}
+		back := &rtcp.TransportLayerCC{}
+		if err := back.Unmarshal(raw); err != nil || rtcpText(back) != rtcpText(fb) {
+			return nil, false
+		}
+		return raw, true
+	case "ccfb":
+		fb, ok := c09ParseCCFB(m)
+		if !ok || c09ZS(verifhooks.ToTime(uint64(fb.ReportTimestamp)<<16)) != m["ref"] {
+			return nil, false
+		}
+		raw, err := fb.Marshal()
+		if err != nil || len(raw) > 1400 {
+			return nil, false
+		}
+		back := &rtcp.CCFeedbackReport{}
+		if err := back.Unmarshal(raw); err != nil || rtcpText(back) != rtcpText(fb) {
+			return nil, false
+		}
+		return raw, true
+	}
+	return nil, false
+}
+
+// ccpArrived lists what a report says arrived: one line per packet, in report order, without what depends on the
+// position of the reporting interceptor in the chain (its own packet counter, the departure instant).
+func ccpArrived(rep rtpfb.Report) []string {
+	var out []string
+	for _, p := range rep.PacketReports {
+		if !p.Arrived {
+			continue
+		}
+		if p.IsTWCC {
+			out = append(out, fmt.Sprintf("tw=%d size=%d arr=%s ecn=%d", p.TWCCSequenceNumber, p.Size, c09ZS(p.Arrival), p.ECN))
+		} else {
+			out = append(out, fmt.Sprintf("ssrc=%d seq=%d size=%d arr=%s ecn=%d", p.SSRC, p.RTPSequenceNumber, p.Size, c09ZS(p.Arrival), p.ECN))
+		}
+	}
+	return out
 }
 
 type ccpExpect struct {
@@ -108,12 +243,15 @@ func c09RunCCPath(t *testing.T, ops []string, o *Out) {
 		// initial rate is high enough for the budget of one tick to cover everything a case queues between two
 		// ticks (no feedback reaches the rate controller: the target never changes), so release instants are
 		// exactly the next tick; what the pacer does when the budget is short is the subject of component `leaky`.
+		var ests []*ccpEstimator
 		f, err := cc.NewInterceptor(func() (cc.BandwidthEstimator, error) {
 			b, err := gcc.NewSendSideBWE(gcc.SendSideBWEInitialBitrate(1_000_000_000), gcc.WithLoggerFactory(lf))
-			if err == nil {
-				made = append(made, b)
+			if err != nil {
+				return nil, err
 			}
-			return b, err
+			made = append(made, b)
+			ests = append(ests, &ccpEstimator{SendSideBWE: b})
+			return ests[len(ests)-1], nil
 		})
 		if err != nil {
 			o.P("SETUP %v", err)
@@ -126,7 +264,105 @@ func c09RunCCPath(t *testing.T, ops []string, o *Out) {
 				o.P("SETUP %v", err)
 				return
 			}
-			peers[i] = &ccpPeer{ic: o.Wrap(ic), bwe: made[i], streams: map[uint32]*ccpStream{}}
+			pe := &ccpPeer{bwe: made[i], est: ests[i], streams: map[uint32]*ccpStream{}}
+			pe.ic = ccpWrap(o, ic, pe)
+			pe.reader = pe.ic.BindRTCPReader(interceptor.RTCPReaderFunc(func(b []byte, a interceptor.Attributes) (int, interceptor.Attributes, error) {
+				return copy(b, pe.rtcpIn), o.Bottom(a), nil
+			}))
+			peers[i] = pe
+		}
+		// one `twcc` / `ccfb` op read through the chain of `who`
+		readFeedback := func(who int, name string, raw []byte) {
+			pe := peers[who]
+			P := func(format string, a ...any) { o.PW(who, format, a...) }
+			handed := 0
+			pe.est.onRTCP = func(pkts []rtcp.Packet) {
+				for _, pkt := range pkts {
+					switch fb := pkt.(type) {
+					case *rtcp.TransportLayerCC:
+						handed++
+						acks, err := pe.bwe.VerifFeedbackAdapter().OnTransportCCFeedback(time.Time{}, fb)
+						if err != nil {
+							P("err:invalid")
+							continue
+						}
+						c09PrintAcks(P, acks)
+					case *rtcp.CCFeedbackReport:
+						handed++
+						c09PrintAcks(P, pe.bwe.VerifFeedbackAdapter().OnRFC8888Feedback(time.Time{}, fb))
+					}
+				}
+			}
+			for _, t := range pe.taps {
+				t.has = false
+			}
+			pe.rtcpIn = raw
+			buf := make([]byte, 1500+len(raw))
+			var in interceptor.Attributes
+			if ccpHash(string(raw)).Bool() {
+				in = interceptor.Attributes{} // pion/webrtc passes a fresh map, other callers nil
+			}
+			n, attrs, err := pe.reader.Read(buf, o.Attrs(in))
+			pe.est.onRTCP = nil
+			if err != nil || n != len(raw) {
+				P("READ the chain answered n=%d err=%v to %d bytes of well-formed %s feedback", n, err, len(raw), name)
+			}
+			if handed != 1 {
+				P("READ the estimator behind pkg/cc was handed %d feedback packets, 1 was read", handed)
+			}
+			if err != nil {
+				return
+			}
+			o.CheckRTCPInput(who, buf[:n], attrs)
+			// the rtpfb interceptors of the chain: all of them saw the same packets leave and the same feedback arrive
+			var first []string
+			for i, t := range pe.taps {
+				var arr []string
+				if t.has {
+					arr = ccpArrived(t.report)
+				}
+				if i == 0 {
+					first = arr
+				} else if strings.Join(arr, "|") != strings.Join(first, "|") {
+					P("CONSUMER-DIFF rtpfb interceptor %d of the chain reports arrived [%s], the innermost one [%s]", i,
+						strings.ReplaceAll(strings.Join(arr, "|"), " ", "_"), strings.ReplaceAll(strings.Join(first, "|"), " ", "_"))
+				}
+				if !t.has {
+					continue
+				}
+				// … and each of them what the bytes encode
+				fresh, err := rtcp.Unmarshal(buf[:n])
+				if err != nil || len(fresh) != 1 {
+					continue
+				}
+				says := map[string]bool{}
+				switch fb := fresh[0].(type) {
+				case *rtcp.TransportLayerCC:
+					for _, a := range rtpfb.VerifConvertTWCC(fb) {
+						if a.Arrived {
+							says[fmt.Sprintf("tw=%d arr=%s", a.SequenceNumber, c09ZS(a.Arrival))] = true
+						}
+					}
+				case *rtcp.CCFeedbackReport:
+					_, res := rtpfb.VerifConvertCCFB(t.report.Arrival, fb)
+					for ssrc, acks := range res {
+						for _, a := range acks {
+							if a.Arrived {
+								says[fmt.Sprintf("ssrc=%d seq=%d arr=%s", ssrc, a.SequenceNumber, c09ZS(a.Arrival))] = true
+							}
+						}
+					}
+				}
+				for _, p := range t.report.PacketReports {
+					key := fmt.Sprintf("ssrc=%d seq=%d arr=%s", p.SSRC, p.RTPSequenceNumber, c09ZS(p.Arrival))
+					if p.IsTWCC {
+						key = fmt.Sprintf("tw=%d arr=%s", p.TWCCSequenceNumber, c09ZS(p.Arrival))
+					}
+					if p.Arrived && !says[key] {
+						P("CONSUMER-DIFF rtpfb interceptor %d of the chain reports %s as arrived; the feedback read does not say so", i, strings.ReplaceAll(key, " ", "_"))
+					}
+				}
+			}
 		}
 		defer func() {
 			for _, pe := range peers {
@@ -314,6 +550,10 @@ func c09RunCCPath(t *testing.T, ops []string, o *Out) {
 				op, who := twinOp(ops[i])
 				i++
 				name, m := kv(op)
+				if raw, ok := ccpFeedbackPacket(name, m); ok && ccpHash(op).Chance(3, 4) {
+					readFeedback(who, name, raw)
+					continue
+				}
 				if !c09AdapterFeedbackOp(peers[who].bwe.VerifFeedbackAdapter(), name, m, func(format string, a ...any) { o.PW(who, format, a...) }) {
 					o.PW(who, "bad-op")
 				}
@@ -644,8 +884,32 @@ func c09GenCCPath(r *Rng, tier string, idx int) Case {
 		}
 		return strings.Join(s, ",")
 	}
-	if r.Chance(2, 3) {
-		ops = append([]string{ambOp(pick("stats", "noop", "dumps"), pick("noop", "stats"), r.Bool(), false, false, r.Bool())}, ops...)
+	switch {
+	case r.Chance(1, 3):
+		// the library's other feedback consumer, rtpfb, before / after / on both sides of pkg/cc (other neighbours in
+		// between): the RTCP readers of the chain share one parse of every feedback packet
+		before, after := pick("stats", "noop", "dumps"), pick("noop", "stats")
+		join := func(a, b string) string {
+			if a == "" || b == "" {
+				return a + b
+			}
+			return a + "," + b
+		}
+		switch r.Intn(5) {
+		case 0:
+			before = join("rtpfb", before)
+		case 1:
+			after = join(after, "rtpfb")
+		case 2:
+			before, after = join(before, "rtpfb"), join("rtpfb", after)
+		case 3:
+			before = join("rtpfb,rtpfb", before)
+		default:
+			before, after = join("rtpfb", before), join(after, "rtpfb")
+		}
+		ops = append([]string{ambOp(before, after, true, false, r.Chance(1, 3), r.Bool())}, ops...)
+	case r.Chance(2, 3):
+		ops = append([]string{ambOp(pick("stats", "noop", "dumps"), pick("noop", "stats"), r.Bool(), false, r.Chance(1, 4), r.Bool())}, ops...)
 	}
 	return Case{Class: cl, Ops: ops}
 }
